@@ -41,13 +41,3 @@ pub fn VBrotliDecompressStream(
         (old(s).fresh() && *final(input_offset) == *old(input_offset)) ==> (r is NeedsMoreInput || r is ResultFailure),
 { unimplemented!() }
 
-// vec![0u8; n]  [rewrite R11]: allocation side condition (C08) -- n bounded by a constant
-#[verifier::external_body]
-pub fn vzeroed(n: usize) -> (r: Vec<u8>)
-    requires n <= 8 * 1024 * 1024,
-    ensures r@.len() == n,
-{ vec![0u8; n] }
-
-// <[T]>::fill (Rust reference)
-pub assume_specification<T: Clone>[<[T]>::fill](s: &mut [T], value: T)
-    ensures final(s)@.len() == old(s)@.len();
